@@ -171,7 +171,7 @@ func (w *World) producedOperators(g *Grammar) map[string]bool {
 }
 
 func ruleAOps(w *World, r *Report) {
-	r.rule("A-OPS", "operator strings agree end to end: every operator the parser produces has a case in the builder's operator dispatch; inner dispatches cover their outer case; each comparison operator is bound to a wrapper that passes the same operator string to the comparison table, whose primitive comparison functions return exactly `a OP b` (parameter order kept) for that string; each arithmetic operator is bound to the float64 operation of its name on asNumber(left), asNumber(right) in order; mod is a remainder")
+	r.rule("A-OPS", "operator strings agree end to end: every operator the parser produces has a case in the builder's operator dispatch; inner dispatches cover their outer case; each comparison operator is bound to a wrapper that passes the same operator string to the comparison table, whose primitive comparison functions, followed by constant propagation with each operator string and symbolic operands, return exactly `a OP b` (operands in order) for that string and false for any other; each arithmetic operator is bound to the float64 operation of its name on asNumber(left), asNumber(right) in order; mod is a remainder")
 	g, err := w.grammar()
 	if err != nil {
 		r.bad("ANCHOR", "A-OPS", "", err.Error())
